@@ -222,24 +222,100 @@ func runC14(c *Ctx) {
 		// tryWriteErrAndClose: unknown errors map to Error_Unexpected
 		tw := h("(*handshake).tryWriteErrAndClose")
 		okUnexp := false
-		Instrs(tw, func(in ssa.Instruction) {
-			if phi, ok := in.(*ssa.Phi); ok {
-				for _, e := range phi.Edges {
-					if k, isK := e.(*ssa.Const); isK && k.Value != nil && k.Value.ExactString() == constVal(p, hsProto, "Error_Unexpected") {
-						okUnexp = true
+		unexp := constVal(p, hsProto, "Error_Unexpected")
+		// the code handed to writeAck may be Error_Unexpected: directly (phi of the type switch)
+		// or as a possible result of the helper that maps the error
+		var mayBeUnexp func(v ssa.Value, d int) bool
+		mayBeUnexp = func(v ssa.Value, d int) bool {
+			vals, _ := Origins(v)
+			for _, o := range vals {
+				if k, isK := o.(*ssa.Const); isK && k.Value != nil && k.Value.ExactString() == unexp {
+					return true
+				}
+				if call, isCall := o.(*ssa.Call); isCall && d < 2 {
+					if hf := CalleeFunc(&call.Call); hf != nil && hf.Blocks != nil && IsRepoFunc(hf) {
+						for _, ri := range Returns(hf) {
+							if rs := ri.(*ssa.Return).Results; len(rs) > 0 && mayBeUnexp(rs[0], d+1) {
+								return true
+							}
+						}
 					}
 				}
 			}
-		})
+			return false
+		}
+		for _, cs := range CallSinks(tw, CalleeFn(h("(*handshake).writeAck")), false) {
+			if args := cs.(*ssa.Call).Call.Args; len(args) == 2 && mayBeUnexp(args[1], 0) {
+				okUnexp = true
+			}
+		}
 		c.Check(okUnexp, "C14.2-handshake-error-construction", FuncName(tw)+"|foreign errors → Error_Unexpected", p.Pos(tw.Pos()), "errors that are not HandshakeError are reported to the peer as Error_Unexpected")
 	}
 
 	// ---- C14.3 frame discipline in readMsg
 	{
-		contains := GBool("slices.Contains(allowedTypes, type)==true", func(cc *ssa.CallCommon) bool {
+		containsCall := GBool("slices.Contains(allowedTypes, type)==true", func(cc *ssa.CallCommon) bool {
 			o := CalleeObj(cc)
 			return o != nil && o.Name() == "Contains" && len(cc.Args) == 2 && originatesFromParam(cc.Args[0], readMsg.Params[1])
 		}, 0, true)
+		// the same membership test written as a loop: a boolean that is true only on the edge
+		// from `allowedTypes[i] == type`
+		contains := GCmp(containsCall.Name, func(a Atom) (bool, bool) {
+			if m, pwt := containsCall.Match(a); m {
+				return true, pwt
+			}
+			phi, ok := a.X.(*ssa.Phi)
+			if !ok || a.Op != token.ILLEGAL {
+				return false, false
+			}
+			sawTrue := false
+			for i, e := range phi.Edges {
+				b, isC := BoolConst(e)
+				if !isC {
+					return false, false
+				}
+				if !b {
+					continue
+				}
+				// the predecessor carrying `true` lies behind an element == x test over the parameter
+				pr := phi.Block().Preds[i]
+				found := false
+				for _, blk := range readMsg.Blocks {
+					iff, isIf := blk.Instrs[len(blk.Instrs)-1].(*ssa.If)
+					if !isIf {
+						continue
+					}
+					at := AtomOf(iff)
+					if at.Op != token.EQL && at.Op != token.NEQ {
+						continue
+					}
+					isElem := func(v ssa.Value) bool {
+						u, isU := v.(*ssa.UnOp)
+						if !isU {
+							return false
+						}
+						ia, isIA := u.X.(*ssa.IndexAddr)
+						return isIA && originatesFromParam(ia.X, readMsg.Params[1])
+					}
+					if !isElem(at.X) && !isElem(at.Y) {
+						continue
+					}
+					ts := at.TrueSucc()
+					if at.Op == token.NEQ {
+						ts = 1 - ts
+					}
+					eqSucc := blk.Succs[ts]
+					if eqSucc == pr || eqSucc.Dominates(pr) || eqSucc == phi.Block() && blk == pr {
+						found = true
+					}
+				}
+				if !found {
+					return false, false
+				}
+				sawTrue = true
+			}
+			return sawTrue, true
+		})
 		sizeOK := GCmp("size <= sizeLimit", func(a Atom) (bool, bool) {
 			lim := constVal(p, hsPkg, "sizeLimit")
 			isLim := func(v ssa.Value) bool {
